@@ -87,7 +87,8 @@ func TokChar(i int) rune { return 'a' + rune(i) }
 // Lox renders the grammar as .lox text. Style bits vary the spelling only
 // (documented equivalents): 1 = refer to tokens by literal alias in the parser
 // section, 2 = continuation with a trailing backslash instead of a leading '|',
-// 4 = comments and blank lines, 8 = parser section first.
+// 4 = comments and blank lines, 8 = parser section first, 16 = two files (LoxFiles),
+// 32 (with 1) = literal aliases for all tokens instead of every other one.
 func (g *G) Lox() string {
 	var lx, ps strings.Builder
 	lx.WriteString("@lexer\n")
@@ -103,7 +104,7 @@ func (g *G) Lox() string {
 	var alias func(string) string
 	if g.Style&1 != 0 {
 		alias = func(n string) string {
-			if i, ok := tokIdx[n]; ok && i%2 == 0 {
+			if i, ok := tokIdx[n]; ok && (i%2 == 0 || g.Style&32 != 0) {
 				return fmt.Sprintf("'%c'", TokChar(i))
 			}
 			return n
